@@ -108,7 +108,13 @@ def check_soft_guards(chk, prog, fns):
             facts_ = X.implied(cond, True) | X.implied(cond, False)
             only_null = bool(facts_) and all(ft[0] in ("nn", "null") for ft in facts_)
             n += 1
-            if canon(f, cond) in B3_EXCEPTIONS and "_fd" in f.name:
+            # validity of a file-descriptor argument (init_from_fd / new_from_fd) is not a position inside the value: a sign test of
+            # an int parameter of a *_fd function, in whatever polarity the macro spells its test
+            cd = cs
+            while cd is not None and cd.get("k") == "un" and cd.get("op") == "!":
+                cd = X.strip(cd["ch"][0])
+            if "_fd" in f.name and cd is not None and cd.get("k") == "bin" and cd.get("op") in (">=", "<", ">", "<=") and \
+                    X.const_val(cd["ch"][1]) in (0, -1) and X.strip(cd["ch"][0]).get("rk") == "param" and not X.strip(cd["ch"][0]).get("tp"):
                 only_null = True
             chk.ob("B3", f.name, "assert-is-null-guard:" + canon(f, cond)[:40], only_null, loc=f.loc(x),
                    detail="%s guards a value/range condition (%s) with ASSERT: at runtime level >= 1 an out-of-range argument kills the "
